@@ -19,6 +19,7 @@ TAtom == IsEv("atom") /\ (r.role = "nonresponse" => r.decodes /\ r.changed)
 THash == IsEv("hash") /\ r.transcript_len > 0 /\ r.with_eq_consume     \* with / with_bytes are the chainable variants of consume / consume_bytes
 TPair == IsEv("pair") /\ r.builder_eq_proof /\ r.verifies
 TCtx  == IsEv("ctxbyte") /\ r.changed /\ ~r.accepted
+TBytesExt == IsEv("bytesext") /\ r.changed                                  \* a byte input and its zero-extension differ
 TCtxSet == IsEv("ctxset") /\ r.distinct_challenges = r.contexts      \* no two contexts are identified
 (* C06: accepted under the original tuple only; a substituted component that is not part of an  *)
 (* equation must at least change the challenge (that is the only thing that can reject it)      *)
@@ -26,7 +27,7 @@ TTuple == /\ IsEv("tuple")
           /\ r.accepted = (r.component = "none")
           /\ (r.component # "none" /\ ~r.in_equation) => r.challenge_changed
 TCloseSub == IsEv("closesub") /\ r.accepted = r.same_value
-TNext == TAtom \/ THash \/ TPair \/ TCtx \/ TCtxSet \/ TTuple \/ TCloseSub
+TNext == TAtom \/ THash \/ TPair \/ TCtx \/ TCtxSet \/ TBytesExt \/ TTuple \/ TCloseSub
 TSpec == l = 1 /\ [][TNext]_l
 Accepted ==
   LET n == TLCGet("stats").diameter - 1 IN
